@@ -16,6 +16,9 @@ import (
 func NewOpts(dir string) *nsqd.Options {
 	opts := nsqd.NewOptions()
 	opts.Logger = log.New(io.Discard, "", 0)
+	if os.Getenv("VERIF_NSQD_LOG") != "" {
+		opts.Logger = log.New(os.Stderr, "nsqd: ", log.Lmicroseconds)
+	}
 	opts.LogLevel = 4 // errors only
 	opts.TCPAddress = "127.0.0.1:0"
 	opts.HTTPAddress = "127.0.0.1:0"
